@@ -128,6 +128,32 @@ func newAcct(name string) *acct {
 	return &acct{name, k, crypto.PubkeyToAddress(k.PublicKey)}
 }
 
+// ring is a family of deterministic keys: the registered signers 1, 2, ... (created on demand).
+type ring struct {
+	prefix string
+	accts  []*acct
+	idx    map[common.Address]int
+}
+
+func newRing(prefix string) *ring {
+	return &ring{prefix: prefix, accts: []*acct{nil}, idx: map[common.Address]int{}}
+}
+
+func (r *ring) get(i int) *acct {
+	for len(r.accts) <= i {
+		x := newAcct(fmt.Sprintf("%s%d", r.prefix, len(r.accts)))
+		r.idx[x.addr] = len(r.accts)
+		r.accts = append(r.accts, x)
+	}
+	return r.accts[i]
+}
+
+// index of the signer holding address x (0: nobody of this ring)
+func (r *ring) of(x common.Address, upto int) int {
+	r.get(upto)
+	return r.idx[x]
+}
+
 type chainPos struct {
 	blk  *types.Block
 	rank int
@@ -148,8 +174,8 @@ type adapter struct {
 	w       *node.World
 	dir     string
 	builder *node.Node
-	signer  [4]*acct // registered signers 1..3 of sender accounts
-	psigner [4]*acct // registered signers 1..3 of payer accounts
+	signer  *ring // keys of the registered signers 1, 2, ... of sender accounts
+	psigner *ring // keys of the registered signers 1, 2, ... of payer accounts
 	foreign *acct
 	wrapper *acct // sender of boxes
 	payer2  *acct // the account a tampered gasPayer field points to
@@ -175,10 +201,7 @@ func (a *adapter) init() {
 	a.w = node.NewWorld(nDeputies, 1000)
 	deputynode.SetSelfNodeKey(a.w.Outsider2())
 	a.builder = a.w.NewNode(filepath.Join(a.dir, "builder"))
-	for i := 1; i <= 3; i++ {
-		a.signer[i] = newAcct(fmt.Sprintf("s%d", i))
-		a.psigner[i] = newAcct(fmt.Sprintf("p%d", i))
-	}
+	a.signer, a.psigner = newRing("s"), newRing("p")
 	a.foreign = newAcct("foreign")
 	a.wrapper = newAcct("wrapper")
 	a.payer2 = newAcct("payer2")
@@ -199,16 +222,11 @@ func (v view) bal(x common.Address) *big.Int { return v.am.GetAccount(x).GetBala
 
 // cfgOf maps the real registered signers of an account to the specification's configuration: the weights of
 // registered signers 1..k.  Anything else is reported verbatim (and rejected by the monitor).
-func (a *adapter) cfgOf(v view, x common.Address, keys [4]*acct) interface{} {
+func (a *adapter) cfgOf(v view, x common.Address, keys *ring) interface{} {
 	ss := v.am.GetAccount(x).GetSigners()
 	w := make([]int, len(ss))
 	for _, s := range ss {
-		idx := 0
-		for i := 1; i <= 3; i++ {
-			if keys[i].addr == s.Address {
-				idx = i
-			}
-		}
+		idx := keys.of(s.Address, len(ss))
 		if idx == 0 || idx > len(ss) || w[idx-1] != 0 {
 			return fmt.Sprintf("unexpected signers %s", ss.String())
 		}
@@ -282,16 +300,16 @@ func (a *adapter) sign(c content, scheme types.Signer, k *ecdsa.PrivateKey, vari
 
 func (a *adapter) simpleTx(from *acct, to common.Address, typ uint16, amount *big.Int, data []byte, exp uint64) *types.Transaction {
 	c := content{typ: typ, version: types.TxVersion, chainID: node.ChainID, from: from.addr, gasPayer: from.addr, to: &to,
-		gasPrice: new(big.Int).Set(unit), gasLimit: gasLimit, amount: amount, data: data, exp: exp}
+		gasPrice: new(big.Int).Set(unit), gasLimit: gasLimit + 100*uint64(len(data)), amount: amount, data: data, exp: exp}
 	r := c.raw()
 	r.Sigs = [][]byte{a.sign(c, types.DefaultSigner{}, from.key, 0)}
 	return r.tx()
 }
 
-func (a *adapter) signersData(keys [4]*acct, weights []int) []byte {
+func (a *adapter) signersData(keys *ring, weights []int) []byte {
 	ms := &transaction.ModifySigners{}
 	for i, w := range weights {
-		ms.Signers = append(ms.Signers, types.SignAccount{Address: keys[i+1].addr, Weight: uint8(w)})
+		ms.Signers = append(ms.Signers, types.SignAccount{Address: keys.get(i + 1).addr, Weight: uint8(w)})
 	}
 	data, err := json.Marshal(ms)
 	if err != nil {
@@ -302,7 +320,7 @@ func (a *adapter) signersData(keys [4]*acct, weights []int) []byte {
 
 type want struct {
 	acc     *acct
-	keys    [4]*acct
+	keys    *ring
 	weights []int
 }
 
@@ -476,37 +494,32 @@ func sigSpecs(v tla.Value) []sigSpec {
 	return out
 }
 
-func (a *adapter) keyOf(by int, own *acct, regs [4]*acct) *ecdsa.PrivateKey {
+func (a *adapter) keyOf(by int, own *acct, regs *ring) *ecdsa.PrivateKey {
 	switch {
 	case by == 0:
 		return own.key
-	case by >= 1 && by <= 3:
-		return regs[by].key
-	case by == 9:
+	case by == 999:
 		return a.foreign.key
+	case by >= 1 && by <= 200:
+		return regs.get(by).key
 	}
 	engine.Failf("unknown signer %d", by)
 	return nil
 }
 
 // holders returns the keys an honest wallet would sign with for the account as it is registered in v.
-func (a *adapter) holders(v view, acc *acct, regs [4]*acct) []*ecdsa.PrivateKey {
+func (a *adapter) holders(v view, acc *acct, regs *ring) []*ecdsa.PrivateKey {
 	ss := v.am.GetAccount(acc.addr).GetSigners()
 	if len(ss) == 0 {
 		return []*ecdsa.PrivateKey{acc.key}
 	}
 	var out []*ecdsa.PrivateKey
 	for _, s := range ss {
-		found := false
-		for i := 1; i <= 3; i++ {
-			if regs[i].addr == s.Address {
-				out = append(out, regs[i].key)
-				found = true
-			}
-		}
-		if !found {
+		i := regs.of(s.Address, len(ss))
+		if i == 0 {
 			engine.Failf("account %s has a signer nobody holds a key for", acc.name)
 		}
+		out = append(out, regs.get(i).key)
 	}
 	return out
 }
@@ -644,7 +657,7 @@ func (a *adapter) offer(c tla.Value) (engine.Fields, error) {
 	}
 	// ---- hand it to the miner
 	sj := subjects{s: a.sender.addr, to: to, other: to, p: a.payer2.addr}
-	if cur.to != nil && *cur.to != to {
+	if cur.to != nil && *cur.to != to && *cur.to != a.sender.addr {
 		sj.other = *cur.to
 	}
 	if payer != nil {
